@@ -40,7 +40,8 @@ pub fn install_panic_hook() {
                 .unwrap_or_default();
             record_panic(format!("{msg} @ {loc}"));
             let quiet = QUIET.with(|q| *q.borrow());
-            let is_main = std::thread::current().name() == Some("main");
+            let is_main = std::thread::current().name() == Some("main")
+                && !msg.starts_with('<');
             if is_main
                 || (!quiet && std::env::var_os("VERIF_VERBOSE_PANICS").is_some())
             {
